@@ -137,6 +137,12 @@ func VF_C08_Interleave() {
 	}
 	a, ea, sa, untouched := run("a", true)
 	b, eb, sb, _ := run("b", false)
+	if ea != nil {
+		vf.Record("interleaved-error", ea.Error())
+	}
+	if eb != nil {
+		vf.Record("alone-error", eb.Error())
+	}
 	vf.Assert("interleaved-round-changes-nothing:verdict", (ea == nil) == (eb == nil))
 	vf.Assert("interleaved-round-changes-nothing:round", vf.And(a.HasRnd == b.HasRnd, vf.Eq(a.Round, b.Round)))
 	vf.Assert("interleaved-round-changes-nothing:operations", vf.Eq(a.Ops, b.Ops))
